@@ -205,6 +205,20 @@ def workload(ctx):
                       "wavelength": float(rng.uniform(0.05, 0.5))}
 
 
+def circ_match(A, B, tol):
+    """two lists of angles are the same set on the circle (each element of A has its own partner in B within tol)"""
+    A, B = [float(x) for x in A], [float(x) for x in B]
+    if len(A) != len(B):
+        return False
+    left = list(B)
+    for a in A:
+        best = min(range(len(left)), key=lambda i: abs(math.remainder(a - left[i], 2 * math.pi)), default=None)
+        if best is None or abs(math.remainder(a - left[best], 2 * math.pi)) > tol:
+            return False
+        left.pop(best)
+    return True
+
+
 def _as_set(om, et):
     return sorted((round(math.remainder(float(w), 2 * math.pi), 7), round(math.remainder(float(e), 2 * math.pi), 7))
                   for w, e in zip(om, et))
@@ -247,21 +261,22 @@ def case_solve(ctx, p):
         if (m, "wedge") in res:
             a = _as_set(*res[m, "general"])
             b = _as_set(*res[m, "wedge"])
-            ok = len(a) == len(b) and all(abs(math.remainder(x[0] - y[0], 2 * math.pi)) < wtol and
-                                          abs(math.remainder(x[1] - y[1], 2 * math.pi)) < 1e-5 for x, y in zip(a, b))
+            ok = circ_match([x[0] for x in a], [x[0] for x in b], wtol) and circ_match([x[1] for x in a], [x[1] for x in b], 1e-5)
+            if ok and len(a) == 2:
+                # the pairing (omega_i, eta_i) must be the same in both solvers
+                ia = 0 if abs(math.remainder(a[0][0] - b[0][0], 2 * math.pi)) <= abs(math.remainder(a[0][0] - b[1][0], 2 * math.pi)) else 1
+                ok = abs(math.remainder(a[0][1] - b[ia][1], 2 * math.pi)) < 1e-5
             mon.check("workload:%s.find_omega_general(chi=0,w) = find_omega_wedge(-w)" % m, ok, observed=a, expected=b)
         if (m, "plain") in res:
-            a = sorted(round(float(w), 7) for w in res[m, "general"][0])
+            a = [float(w) for w in res[m, "general"][0]]
             for other in ("quart", "wedge", "plain"):
                 om = res[m, other] if other == "plain" else res[m, other][0]
-                b = sorted(round(float(w), 7) for w in om)
-                ok = len(a) == len(b) and all(abs(math.remainder(x - y, 2 * math.pi)) < wtol for x, y in zip(a, b))
-                mon.check("workload:%s solvers agree at zero tilt" % m, ok, observed=b, expected=a, detail=other)
-            ea = sorted(round(float(e), 7) for e in res[m, "general"][1])
+                b = [float(w) for w in om]
+                mon.check("workload:%s solvers agree at zero tilt" % m, circ_match(a, b, wtol), observed=b, expected=a, detail=other)
+            ea = [float(e) for e in res[m, "general"][1]]
             for other in ("quart", "wedge"):
-                eb = sorted(round(float(e), 7) for e in res[m, other][1])
-                ok = len(ea) == len(eb) and all(abs(math.remainder(x - y, 2 * math.pi)) < 1e-5 for x, y in zip(ea, eb))
-                mon.check("workload:%s solvers agree at zero tilt" % m, ok, observed=eb, expected=ea, detail=other + " eta")
+                eb = [float(e) for e in res[m, other][1]]      # eta is an angle: -x and 2 pi - x are the same answer
+                mon.check("workload:%s solvers agree at zero tilt" % m, circ_match(ea, eb, 1e-5), observed=eb, expected=ea, detail=other + " eta")
 
 
 def case_tth(ctx, p):
